@@ -118,6 +118,24 @@ def _patch_list() -> list:
     return out
 
 
+def _write_report(rows, only):
+    """Rewritten after every patch, so a run that is cut short still leaves its results."""
+    if only:
+        return
+    try:
+        head = subprocess.run(["git", "-C", VERIF_DIR, "rev-parse", "--short", "HEAD"], capture_output=True, text=True).stdout.strip()
+    except OSError:
+        head = "?"
+    summary = {}
+    for r in rows:
+        summary[r["result"]] = summary.get(r["result"], 0) + 1
+    report = {"verif_commit": head, "patches_run": len(rows), "summary": summary,
+              "rows": [{k: r.get(k) for k in ("id", "prop", "expect", "result", "tests", "detail")} for r in rows]}
+    with open(os.path.join(VERIF_DIR, "sensitivity_report.json"), "w") as f:
+        json.dump(report, f, indent=1, sort_keys=True)
+        f.write("\n")
+
+
 def sensitivity(args) -> int:
     only = os.environ.get("VERIF_ONLY")
     rows = []
@@ -163,14 +181,11 @@ def sensitivity(args) -> int:
                     rc = 2
             detail = "; ".join(s.replace("signature: ", "") for s in sigs[:3]) or cp.stdout.strip()[-300:]
             rows.append(dict(pt, result=res, tests=tests, detail=detail))
+            _write_report(rows, only)
             eprint("[sensitivity] %-55s %-6s %-13s %s" % (pt["id"], pt["expect"], res, detail[:140]))
         finally:
             shutil.rmtree(scratch, ignore_errors=True)
-    report = {"rows": [{k: r.get(k) for k in ("id", "prop", "expect", "result", "tests", "detail")} for r in rows]}
-    if not only:
-        with open(os.path.join(VERIF_DIR, "sensitivity_report.json"), "w") as f:
-            json.dump(report, f, indent=1, sort_keys=True)
-            f.write("\n")
+    _write_report(rows, only)
     for r in rows:
         print("%-58s %-4s expect=%-6s %s" % (r["id"], r["prop"], r["expect"], r["result"]))
     return rc
